@@ -10,7 +10,7 @@
    bodies, non-basic types.
    A comment statement is only derivable when what follows it is not a block keyword or a block
    terminator: there the parser swallows the comment (exp_token skips comments), see
-   C06_refuted_comment_before_block in Properties/C06.v. *)
+   C06_comment_node_dropped_before_block in Properties/C06.v (a documented fact: comments are layout for C06). *)
 From GoldV Require Import Base Tokens Lexer AstKinds Tree Strings PComb Grammar Ladder RTComb LadderProofs ExprRT.
 From Coq Require Import Lia.
 
